@@ -37,7 +37,17 @@ def specs():
         xs = [L * k / n for k in range(n)] + [L]
         return {'kind': 'param', 'curve': 'Circle', 'ts': t, 'xs': xs}
     ci = st.builds(circ, st.sampled_from([3, 4, 8, 5]), ts)
-    return st.one_of(sq, sq, ci)
+    def graded(c, t, e):
+        from vlib.gens import curve_breaks
+        br = curve_breaks(c)
+        xs = []
+        for a, b in zip(br[:-1], br[1:]):
+            xs += [a, a + (b - a) * e, b - (b - a) * e]
+        xs.append(br[-1])
+        return {'kind': 'param', 'curve': c, 'ts': t, 'xs': xs, 'period': 3}
+    # every side split into [0, e], [e, 1-e], [1-e, 1]: invariant under quarter turns and the reflection
+    gr = st.builds(graded, st.sampled_from(['UnitSquare', 'PiSquare']), ts, st.sampled_from([0.25, 0.125, 1 / 16, 1 / 64]))
+    return st.one_of(sq, sq, ci, gr)
 
 
 def cases():
@@ -82,7 +92,9 @@ def image(case, probe, A, B):
                 return None
         return out
     if sym == 'rot':
-        s = (1 + case['k'] % (probe.n_x - 1)) * ONE
+        per = case['spec'].get('period', 1)          # roots per congruent piece of the grid
+        n_rot = probe.n_x // per
+        s = (1 + case['k'] % (n_rot - 1)) * per * ONE
         if case['spec']['curve'] == 'Circle' and case['shift_level'] > 0:
             # any dyadic rotation of the circle: a multiple of the larger box length (boxes stay dyadic because all
             # roots of the uniform grid are equal)
@@ -133,9 +145,8 @@ def body(case, rec):
     tt2, tx2 = intervals(t2)
     st2, sx2 = intervals(s2)
     sc2, tc2, near2, info2 = pairs.classify(g, tt2, tx2, st2, sx2)
-    if pairs.close_disjoint_excluded(info, sc) or pairs.close_disjoint_excluded(info2, sc2):
-        rec.exclude('short_panel_close_to_much_longer_one')
-        return
+    # no accuracy bound is needed here: the comparison is between two evaluations that must use the same rule in the
+    # same relative position, whatever its accuracy (the unchanged tree agrees to 1e-13 also for extreme size ratios)
     if case['sym'] in ('rot', 'reflect'):
         if not all(pairs.aspect_ok(e) for e in (t2, s2)):
             rec.exclude('aspect_above_32')
